@@ -463,6 +463,7 @@ func ruleCmpShape(r *core.Report, ruleID string) {
 			return nil, nil, false
 		}
 		var idxPhi *ssa.Phi
+		rangeForm := false
 		okNeg, okPos, nCmp := false, false, 0
 		for _, in := range core.AllInstrs(cmp) {
 			iff, ok := in.(*ssa.If)
@@ -481,6 +482,14 @@ func ruleCmpShape(r *core.Report, ruleID string) {
 			nCmp++
 			if ph, isPhi := li.(*ssa.Phi); isPhi {
 				idxPhi = ph
+			}
+			// `for i := range s`: go/ssa keeps a counter that starts at -1 and indexes with counter+1
+			if bo, isB := li.(*ssa.BinOp); isB && bo.Op == token.ADD {
+				if ph, isPhi := bo.X.(*ssa.Phi); isPhi {
+					if k, isK := core.ConstInt(bo.Y); isK && k == 1 {
+						idxPhi, rangeForm = ph, true
+					}
+				}
 			}
 			// which constant does the true edge return?
 			tb := iff.Block().Succs[0]
@@ -509,7 +518,11 @@ func ruleCmpShape(r *core.Report, ruleID string) {
 		if idxPhi != nil {
 			step, start := phiStep(idxPhi)
 			k, isK := core.ConstInt(start)
-			ascending = step > 0 && isK && k == 0 && phiStride(idxPhi) == 1
+			first := int64(0)
+			if rangeForm {
+				first = -1
+			}
+			ascending = step > 0 && isK && k == first && phiStride(idxPhi) == 1
 		}
 		r.Check(ascending, ruleID, "DistanceCmp most significant byte first", p.Pos(cmp.Pos()), "the byte index starts at 0 and increases", "DistanceCmp does not walk the bytes from index 0 upward: distances are not compared most significant byte first")
 		sign := func(fn *ssa.Function, op token.Token) bool {
